@@ -265,10 +265,12 @@ pub fn run(args: &[String]) {
     }
     if made <= nrates {
       // rates on a small grid around the centre; the exchanged setup is evaluated on the transposed grid
-      let r = 5usize;
-      let span = 1.5 * sigma;
-      let range = FrequencySpace::new((ws0 - span, ws0 + span, r), (wi0 - span, wi0 + span, r));
-      let range_t = FrequencySpace::new((wi0 - span, wi0 + span, r), (ws0 - span, ws0 + span, r));
+      // unequal axis spans AND resolutions (unequal cell widths dws != dwi); the exchanged setup is evaluated on the transposed grid
+      let (rs, ri) = *rng.pick(&[(5usize, 4usize), (4, 6), (5, 5), (3, 5)]);
+      let span_s = rng.range(0.8, 1.6) * sigma;
+      let span_i = rng.range(0.8, 1.6) * sigma;
+      let range = FrequencySpace::new((ws0 - span_s, ws0 + span_s, rs), (wi0 - span_i, wi0 + span_i, ri));
+      let range_t = FrequencySpace::new((wi0 - span_i, wi0 + span_i, ri), (ws0 - span_s, ws0 + span_s, rs));
       let raw = |h: ucum::Hertz<f64>| *(h / HZ);
       let res = guarded(|| {
         let cc = raw(spdc.counts_coincidences(range, integ));
@@ -279,13 +281,20 @@ pub fn run(args: &[String]) {
         let si_sw = raw(swapped.counts_singles_idler(range_t, integ));
         let corr = spdc::get_counts_correction(&spdc);
         let corr_sw = spdc::get_counts_correction(&swapped);
+        // spectra with their frequency arguments, so the consumer can pair points without knowing the iteration order
+        let pts: Vec<(Frequency, Frequency)> = range.as_steps().into_iter().collect();
+        let pts_t: Vec<(Frequency, Frequency)> = range_t.as_steps().into_iter().collect();
+        let rw = |f: Frequency| *(f / (RAD / S));
+        let grid: Vec<Value> = pts.iter().map(|(a, b)| json!([fx(rw(*a)), fx(rw(*b))])).collect();
+        let grid_t: Vec<Value> = pts_t.iter().map(|(a, b)| json!([fx(rw(*a)), fx(rw(*b))])).collect();
         let jsi_idler: Vec<f64> = js.0.jsi_singles_idler_range(range).iter().map(|x| *(*x / JSIUnits::new(1.))).collect();
-        // the exchanged setup's signal singles on the transposed grid, re-ordered to the original grid's order
         let sw_sig: Vec<f64> = js.1.jsi_singles_range(range_t).iter().map(|x| *(*x / JSIUnits::new(1.))).collect();
         let jsi: Vec<f64> = js.0.jsi_range(range).iter().map(|x| *(*x / JSIUnits::new(1.))).collect();
         let jsi_sw: Vec<f64> = js.1.jsi_range(range_t).iter().map(|x| *(*x / JSIUnits::new(1.))).collect();
+        let (dws, dwi) = range.steps().division_widths();
         json!({"cc": fx(cc), "cc_sw": fx(cc_sw), "ss": fx(ss), "si": fx(si), "ss_sw": fx(ss_sw), "si_sw": fx(si_sw),
-          "corr": fx(corr), "corr_sw": fx(corr_sw), "res": r,
+          "corr": fx(corr), "corr_sw": fx(corr_sw), "res": [rs, ri], "dws": fx(rw(dws)), "dwi": fx(rw(dwi)),
+          "grid": grid, "grid_t": grid_t,
           "jsi_idler": fxs(&jsi_idler), "sw_signal_t": fxs(&sw_sig), "jsi": fxs(&jsi), "jsi_sw_t": fxs(&jsi_sw)})
       });
       match res {
